@@ -178,6 +178,8 @@ def _check_parity(case, distinct):
         import fairlearn.reductions as fr
 
         G = gs.lambda_vecs_.iloc[:, ::-1].copy()
+        if case.get("grid_size", 0) % 2 == 0:
+            G = G.iloc[::-1]  # the user's grid lists the constraints in another order than the moment's index
         swn2 = bool(case.get("swn"))
         gs2 = fr.GridSearch((ExactTableW if swn2 else ExactTable)(tie=case.get("tie", 0)), R.build_moment(case),
                             constraint_weight=cw, grid=G, **({"sample_weight_name": "w"} if swn2 else {}))
